@@ -770,6 +770,29 @@ theorem loopInv_step (limit : Nat) (p : Proc) (o : Obs) (h : LoopInv limit p) : 
   | terminated oc =>
     exact ⟨h1, h2, h3, h4, h5, h6, h7, h8⟩
 
+/-- both accountings hold along every event stream -/
+theorem loopInv_events (limit : Nat) (p : Proc) (evs : List PEvent) (h : LoopInv limit p) :
+    LoopInv limit (evs.foldl (Proc.apply limit) p) := by
+  induction evs generalizing p with
+  | nil => exact h
+  | cons e es ih =>
+    simp only [List.foldl_cons]
+    apply ih
+    cases e with
+    | obs o => exact loopInv_step limit p o h
+    | ctxEnd d => exact loopInv_endCtx limit p d h
+
+theorem outInv_events (limit : Nat) (p : Proc) (evs : List PEvent) (h : OutInv p) :
+    OutInv (evs.foldl (Proc.apply limit) p) := by
+  induction evs generalizing p with
+  | nil => exact h
+  | cons e es ih =>
+    simp only [List.foldl_cons]
+    apply ih
+    cases e with
+    | obs o => exact outInv_step limit p o h
+    | ctxEnd d => exact outInv_endCtx p d h
+
 /-! ## the composed system -/
 
 /-- the request is the leader of `g` and still owes its deferred DoneGeneration -/
